@@ -454,6 +454,12 @@ def behavioural(res, fact):
         for sel in range(256):
             rg = dict(regs, BA=0xFEDC, I=0xBA98, X=0x21234, Y=0x35678, U=0x49ABC, S=0x5DEF0)
             wcases.append((f"sel:{opcode:02X}:{sel:02X}", mk(bytes([opcode, sel]), rg, dict(base_mem), "?", opcode)))
+    # (c6) relative jumps: the displacement byte is an UNSIGNED distance, the direction is in the opcode (table: ImmOffset
+    #      '+' / '-'): forward and backward jumps with a displacement above 0x7F on both cores
+    for opcode in (0x12, 0x13, 0x18, 0x19, 0x1A, 0x1B, 0x1C, 0x1D, 0x1E, 0x1F):
+        for disp in (0x85, 0xFF, 0x7F, 0x80):
+            for fl in ((0, 0), (1, 1)):
+                wcases.append((f"rel:{opcode:02X}", mk(bytes([opcode, disp]), dict(regs, FC=fl[0], FZ=fl[1]), dict(base_mem), "?", opcode)))
     # (c5) the extent of the internal-memory window (address-space constants INTERNAL_MEMORY_START / length 0x100, kept
     #      separately by each core) by behaviour: single accesses to the first and the last offset, and block moves whose
     #      internal pointer steps over offset FF (it wraps to 00 inside the window on both cores)
